@@ -133,6 +133,10 @@ func c17Build(key string, row c17Row, onCmd bool, wide bool, posVariant int, pat
 	if len(c17Cache) > 8 {
 		c17Cache = map[string]*c17Built{}
 	}
+	added := posVariant == 4 // no positional; built through the API, every option handed over with (*Group).AddOption
+	if added {
+		posVariant = 0
+	}
 	descs := map[string]string{}
 	t := decl.TString
 	u := &decl.Opt{Field: "U", Long: row.long, Short: row.short, ValueName: row.valname, Type: t}
@@ -211,7 +215,12 @@ func c17Build(key string, row c17Row, onCmd bool, wide bool, posVariant int, pat
 		}
 	}
 	d := (&decl.Decl{Top: top}).Finish()
-	b := d.BuildTags()
+	var b *decl.Built
+	if added {
+		b = d.BuildAdded()
+	} else {
+		b = d.BuildTags()
+	}
 	if b.Err != nil {
 		return nil, b.Err
 	}
@@ -268,7 +277,7 @@ func init() {
 		ri := c.Choose(len(rows))
 		onCmd := c.Bool()
 		wide := c.Bool()
-		posVariant := c.Choose(4) // 3: on an active command without any option (the row under test stays on the parser)
+		posVariant := c.Choose(5) // 3: on an active command without any option (the row under test stays on the parser); 4: as 0, options handed over with AddOption
 		npat := len(c17Patterns)
 		if !c.Thorough {
 			npat = 8
@@ -281,6 +290,12 @@ func init() {
 		}
 		if posVariant == 3 && (!onCmd || dscript != 0) {
 			c.Skip()
+		}
+		if posVariant == 4 {
+			if dscript != 0 {
+				c.Skip()
+			}
+			c.Hit("options-added-with-AddOption")
 		}
 		lf := 0
 		if len(pat) >= 2 {
